@@ -14,6 +14,7 @@ mod mcp;
 mod midas;
 mod pack;
 mod sim;
+mod sym;
 mod util;
 
 use serde_json::json;
@@ -128,6 +129,11 @@ fn main() {
         "crash" => {
             let mut run = Runner::new(&args);
             crash::run(&mut run, args.req("data"), args.get("in"), args.num("seed", 1), args.num("n", 300), args.num("nsim", 20));
+            run.finish();
+        }
+        "sym" => {
+            let mut run = Runner::new(&args);
+            sym::run(&mut run, args.req("data"), args.num("seed", 1), args.get("tier") == Some("thorough"));
             run.finish();
         }
         "config" => {
